@@ -39,7 +39,14 @@ func c01Specs(tier string) []seqSpec {
 	add := func(cfg string, alpha []string, d int) {
 		out = append(out, seqSpec{Cfg: cfg, Alpha: alpha, Depth: d, Checks: "db"})
 	}
+	// the same search with a full read-back after EVERY step of every path: reads fill the
+	// caches, so cache-dependent defects (stale blocks) need reads in the middle of a program
+	addEvery := func(cfg string, alpha []string, d int) {
+		out = append(out, seqSpec{Cfg: cfg, Alpha: alpha, Depth: d, Checks: "db", Mode: "every"})
+	}
 	if tier == "quick" {
+		addEvery("flushy/bytewise", c01Alpha, 3)
+		addEvery("bigbatch/bytewise", c01AlphaBig, 3)
 		add("flushy/bytewise", c01Alpha, 4)
 		add("rot/bytewise", c01Alpha, 4)
 		add("bigbatch/bytewise", c01AlphaBig, 4)
@@ -54,6 +61,10 @@ func c01Specs(tier string) []seqSpec {
 			addCmp("wide", k, 3)
 		}
 	} else {
+		addEvery("flushy/bytewise", c01Alpha, 4)
+		addEvery("bigbatch/bytewise", c01AlphaBig, 4)
+		addEvery("tinycache/bytewise", c01Alpha, 4)
+		addEvery("deep/bytewise", c01Alpha, 4)
 		add("flushy/bytewise", c01Alpha, 5)
 		add("rot/bytewise", c01Alpha, 5)
 		add("deep/bytewise", c01Alpha, 5)
@@ -98,7 +109,7 @@ func init() {
 				c.Add("transitions", st.Transitions)
 				c.Add("traces_validated_against_impl", st.Transitions)
 				mergeLayouts(layouts, st.Layouts)
-				perCfg[sp.Cfg] = map[string]any{"states": st.States, "transitions": st.Transitions, "depth_completed": st.MaxDepth, "depth_target": sp.Depth, "exhaustive": st.Exhaustive}
+				perCfg[sp.Cfg+"#"+sp.Mode] = map[string]any{"states": st.States, "transitions": st.Transitions, "depth_completed": st.MaxDepth, "depth_target": sp.Depth, "exhaustive": st.Exhaustive}
 				if !st.Exhaustive || st.MaxDepth < sp.Depth {
 					exh = false
 				}
